@@ -194,10 +194,24 @@ pub fn run(tier: Tier) -> i32 {
             (k, s.to_string())
         })
         .collect();
-    let files = crate::props::parser::seed_files();
+    let mut files = crate::props::parser::seed_files();
+    // grammar-derived victims: every production of the reference grammar as the body of a
+    // definition placed between fixed neighbours (so every construct also occurs LAST in a body)
+    {
+        use crate::gleam::ast::{Expr, Item, Module, Stmt};
+        use crate::gleam::print::{print_module, Layout};
+        let nb = |n: &str| Item::Fn { public: false, external: false, target: None, name: n.into(), params: vec![], ret: None, body: Some(vec![Stmt::Expr(Expr::Int("0".into()))]) };
+        let items = if tier == Tier::Thorough { crate::gleam::enumerate::items(1) } else { crate::gleam::enumerate::items_small() };
+        for (i, it) in items.into_iter().enumerate() {
+            let m = Module { items: vec![nb("before"), it, nb("after"), Item::Const { public: false, name: "tail".into(), ann: None, value: Expr::Int("1".into()) }] };
+            files.push((format!("gen/{i}"), print_module(&m, Layout::Space).text));
+        }
+    }
     let mut body_kinds_with_errors: BTreeSet<String> = BTreeSet::new();
     let mut body_kinds: BTreeSet<String> = BTreeSet::new();
     let mut distinct_damaged = 0u64;
+    let mut gen_layer = Layer { name: "grammar-derived-victims".into(), exhaustive: true, ..Default::default() };
+    let mut gen_victims = 0u64;
     for (fname, raw) in &files {
         let Ok((defs0, errs0)) = defs_of(raw) else { continue };
         if !errs0.is_empty() || defs0.len() < 3 {
@@ -210,6 +224,9 @@ pub fn run(tier: Tier) -> i32 {
         }
         let k = if small && tier == Tier::Thorough { 2 } else { 1 };
         for v in victims(raw, &defs0) {
+            if fname.starts_with("gen/") && v.def != 1 {
+                continue;
+            }
             let d = &defs0[v.def];
             let prefix = &raw[..v.open_end];
             let suffix = &raw[v.close_start..];
@@ -249,7 +266,7 @@ pub fn run(tier: Tier) -> i32 {
                                 viol.push(Violation {
                                     class: class.clone(),
                                     key: format!("{}|{}", v.body_kind, desc),
-                                    witness: json!({"file": fname, "victim": d.name, "interior": interior.iter().map(|t| t.1.clone()).collect::<Vec<_>>(), "edit": desc}),
+                                    witness: json!({"file": fname, "raw": raw, "victim": d.name, "interior": interior.iter().map(|t| t.1.clone()).collect::<Vec<_>>(), "edit": desc}),
                                     detail: format!("{fname}: victim {:?} {} damaged by [{desc}]: {detail}", d.kind, d.name),
                                 });
                             }
@@ -292,9 +309,18 @@ pub fn run(tier: Tier) -> i32 {
                 body_kinds_with_errors.insert(v.body_kind.clone());
             }
             l.bound = format!("all sequences of <= {k} edits (insert/delete/replace, {} non-opening symbols) over {} interior tokens; {skipped} unbalanced results excluded; {with_err} damaged variants produced syntax errors", alpha.len(), toks.len());
-            rep.layer(l);
+            if fname.starts_with("gen/") {
+                gen_layer.states += l.states;
+                gen_layer.transitions += l.transitions;
+                gen_layer.executions += l.executions;
+                gen_victims += 1;
+            } else {
+                rep.layer(l);
+            }
         }
     }
+    gen_layer.bound = format!("{gen_victims} victims generated from the reference grammar (every production as the body of a definition between fixed neighbours) x all single edits");
+    rep.layer(gen_layer);
     rep.distinct_nontrivial = distinct_damaged;
     rep.distinct_outcomes = 1 + rep.violations.iter().map(|v| v.class.clone()).collect::<BTreeSet<_>>().len() as u64;
     rep.rule = "every damaged variant is a distinct (victim, edit sequence); non-trivial = brace-balanced damaged variants actually parsed".into();
@@ -306,10 +332,10 @@ pub fn run(tier: Tier) -> i32 {
 }
 
 pub fn replay(w: &serde_json::Value) -> Vec<String> {
-    let files = crate::props::parser::seed_files();
-    let Some((_, raw)) = files.iter().find(|(n, _)| Some(n.as_str()) == w["file"].as_str()) else {
-        return vec!["seed file not found".into()];
+    let Some(raw) = w["raw"].as_str().map(|s| s.to_string()) else {
+        return vec!["witness has no file text".into()];
     };
+    let raw = &raw;
     let Ok((defs0, _)) = defs_of(raw) else { return vec!["seed does not parse".into()] };
     for v in victims(raw, &defs0) {
         let d = &defs0[v.def];
